@@ -197,6 +197,9 @@ def shared_expression_pools(report, rng, n):
         qs = [{'sel': [('var', 0)], 'cond': [('truth', val)]},
               {'sel': [('var', 0)], 'cond': [rng.choice([('cmp', 'eq', val, lit), ('cmp', 'ne', val, lit),
                                                          ('in', val, ('lit', ('l', ('i', 0), ('n',), ('i', 2))))])]}]
+        if rng.random() < 0.5:
+            qs.reverse()         # (the queries are BUILT in pool order: the use as a value first, the use as a condition later)
+            report.count('shared_expression_condition_use_built_last')
         order = [0, 1] if rng.random() < 0.5 else [1, 0]
         pools.append({**base, 'pool': qs, 'hist': [('full', order[0]), ('full', order[1]), ('full', order[0])],
                       'share_terms_pool': True})
@@ -1235,6 +1238,18 @@ def c17(report, rng, tier, findings):
             case = {**case, 'sel': [swap(t) for t in case['sel']], 'cond': [swap(c) for c in case['cond']] if case.get('cond') else None}
             case['explicit'] = twin
             report.count('parent_restricted_by_a_subquery')
+        if i % 9 == 6 and kind in ('member', 'contains') and praw and praw[0][1] < npar:
+            # the parent is restricted by an EARLIER CONJUNCT (the operand's variable is bound when the concatenation is
+            # reached): and_(p.a op k, in_(o.a, concatenate(p.items))) selects the outer values that are in the collections
+            # of the parents that satisfy the conjunct; the explicit twin ranges over those parents only
+            pc = ('cmp', rng.choice(('ge', 'le', 'ne', 'eq')), ('attr', 'a', ('var', 0)), ('lit', ('i', rng.randint(0, 3))))
+            o_ = surface.Oracle({**case, 'sel': [('var', 0)], 'cond': None})
+            keep = [v for v in praw if o_.holds(pc, {0: v})]
+            twin = {**case, 'vars': [(0, 'A', keep)] + list(case['vars'][1:])}
+            case = {**case, 'cond': [('and', pc, case['cond'][0])]}
+            case['explicit'] = twin
+            case['set_level'] = True       # (one row per qualifying parent that holds the value: compared as a SET)
+            report.count('parent_restricted_by_an_earlier_conjunct')
         if rng.random() < 0.4:
             case['pre_take'] = rng.randint(1, 2)       # after an evaluation of the same query abandoned at its k-th row
             report.count('after_an_abandoned_evaluation')
@@ -1252,7 +1267,9 @@ def c17(report, rng, tier, findings):
     judge = J17(report, findings, 'C17', nontrivial=nontriv, ordered=True)
     for c in cases:
         report.count('kind_' + c['kind'])
-    run_query_cases(report, cases, {'caching': (False, True), 'evals': 2, 'ordered': True}, judge)
+    run_query_cases(report, [c for c in cases if not c.get('set_level')], {'caching': (False, True), 'evals': 2, 'ordered': True}, judge)
+    run_query_cases(report, [c for c in cases if c.get('set_level')], {'caching': (False, True), 'evals': 2},
+                    J17(report, findings, 'C17', nontrivial=nontriv))
     return ['EqlModel.Props.C17'], ["the parent domain is non-empty in the generated cases (with no parent the single row has no value)",
                                     "membership is tested on an attribute of the outer variable (values), not on the objects themselves"]
 
@@ -1591,6 +1608,14 @@ def c13(report, rng, tier, findings):
             # the supplied collection is a tuple, a generator expression or a plain iterator (one-shot, not sized)
             case['dom_kind'] = rng.choice(('tuple', 'gen', 'gen', 'iter'))
             report.count('domain_given_as_' + case['dom_kind'])
+        elif not case.get('share_from') and rng.random() < 0.2 and all(raw for _, _, raw in case['vars']):
+            # the supplied domain is a SINGLE OBJECT, not a collection (the library takes it as a one-member domain): it is
+            # in the variable's range iff it is an instance of the variable's type
+            case['dom_kind'] = 'single'
+            one = [(vid, cls, [rng.choice(raw)]) for vid, cls, raw in case['vars']]
+            case['vars'] = one
+            explicit['vars'] = one
+            report.count('domain_given_as_a_single_object')
         if len(base['vars']) == 1 and not extra and base['sel'] == [('var', base['vars'][0][0])] and rng.random() < 0.5:
             case['direct'] = True               # an(T(From(d), ...)) rather than an(entity(T(From(d), ...)))
             vid0 = base['vars'][0][0]
